@@ -247,6 +247,32 @@ impl<T> DualNumFloat for T where
 {
 }
 
+/// Maclaurin series of `j_n(x) / x^n`, where `j_n` is the spherical Bessel function of the first
+/// kind, as a function of `x^2`: the sum over k of `(-x^2)^k / (2^k k! (2n+2k+1)!!)`.
+///
+/// Used for `|x| < 1`, where the closed forms `sin(x)/x`, `(sin(x) - x cos(x))/x^2`, ... cancel
+/// (`sph_j2(1e-3)` loses 13 digits that way, `sph_j2(1e-8)` evaluates to -1). 14 terms keep the
+/// truncation error of the value and of the first four derivatives below the unit roundoff.
+#[doc(hidden)]
+pub fn sph_jn_series<F: DualNumFloat, D: DualNum<F>>(x2: &D, n: usize) -> D {
+    const TERMS: usize = 14;
+    let mut a = [F::zero(); TERMS];
+    let mut c = F::one();
+    for i in 0..n {
+        c = c / F::from(2 * i + 3).unwrap();
+    }
+    a[0] = c;
+    for (k, ak) in a.iter_mut().enumerate().skip(1) {
+        c = -c / F::from(2 * k * (2 * n + 2 * k + 1)).unwrap();
+        *ak = c;
+    }
+    let mut r = D::from(a[TERMS - 1]);
+    for ak in a[..TERMS - 1].iter().rev() {
+        r = r * x2.clone() + *ak;
+    }
+    r
+}
+
 macro_rules! impl_dual_num_float {
     ($float:ty) => {
         impl DualNum<$float> for $float {
@@ -350,15 +376,15 @@ macro_rules! impl_dual_num_float {
                 <$float>::atanh(*self)
             }
             fn sph_j0(&self) -> Self {
-                if self.abs() < <$float>::EPSILON {
-                    1.0 - self * self / 6.0
+                if self.abs() < 1.0 {
+                    sph_jn_series(&(self * self), 0)
                 } else {
                     self.sin() / self
                 }
             }
             fn sph_j1(&self) -> Self {
-                if self.abs() < <$float>::EPSILON {
-                    self / 3.0
+                if self.abs() < 1.0 {
+                    self * sph_jn_series(&(self * self), 1)
                 } else {
                     let sc = self.sin_cos();
                     let rec = self.recip();
@@ -366,8 +392,9 @@ macro_rules! impl_dual_num_float {
                 }
             }
             fn sph_j2(&self) -> Self {
-                if self.abs() < <$float>::EPSILON {
-                    self * self / 15.0
+                if self.abs() < 1.0 {
+                    let s2 = self * self;
+                    s2 * sph_jn_series(&s2, 2)
                 } else {
                     let sc = self.sin_cos();
                     let s2 = self * self;
